@@ -38,9 +38,9 @@ inline Bytes beacon(const Mac& bssid, const std::string& ssid, uint16_t seq, boo
     if (rsn) { const uint8_t r[22] = { 48, 20, 1, 0, 0x00, 0x0f, 0xac, 4, 1, 0, 0x00, 0x0f, 0xac, 4, 1, 0, 0x00, 0x0f, 0xac, 2, 0, 0 }; putb(f, r, 22); }
     return f;
 }
-struct DataSpec { bool to_ds, from_ds, qos, protected_, retry, more_frag; uint8_t tid; uint16_t seq; uint8_t frag; Mac a1, a2, a3, a4; DataSpec() : to_ds(false), from_ds(false), qos(false), protected_(false), retry(false), more_frag(false), tid(0), seq(0), frag(0) {} };
+struct DataSpec { bool to_ds, from_ds, qos, protected_, retry, more_frag; uint8_t tid; uint16_t seq; uint8_t frag; uint8_t cf; /* low subtype bits: 0 Data, 1 +CF-Ack, 2 +CF-Poll, 3 +CF-Ack+CF-Poll (legal data-carrying subtypes) */ Mac a1, a2, a3, a4; DataSpec() : to_ds(false), from_ds(false), qos(false), protected_(false), retry(false), more_frag(false), tid(0), seq(0), frag(0), cf(0) {} };
 inline Bytes data_header(const DataSpec& d) {
-    Bytes f; f.push_back(d.qos ? 0x88 : 0x08); f.push_back((uint8_t)((d.to_ds ? 1 : 0) | (d.from_ds ? 2 : 0) | (d.more_frag ? 4 : 0) | (d.retry ? 8 : 0) | (d.protected_ ? 0x40 : 0))); put16(f, 0x2c00);
+    Bytes f; f.push_back((uint8_t)((((d.qos ? 8 : 0) | (d.cf & 3)) << 4) | 0x08)); f.push_back((uint8_t)((d.to_ds ? 1 : 0) | (d.from_ds ? 2 : 0) | (d.more_frag ? 4 : 0) | (d.retry ? 8 : 0) | (d.protected_ ? 0x40 : 0))); put16(f, 0x2c00);
     putb(f, d.a1.b, 6); putb(f, d.a2.b, 6); putb(f, d.a3.b, 6); uint16_t sc = (uint16_t)((d.seq << 4) | (d.frag & 0xf)); f.push_back((uint8_t)(sc & 0xff)); f.push_back((uint8_t)(sc >> 8)); if (d.to_ds && d.from_ds) putb(f, d.a4.b, 6); if (d.qos) { f.push_back(d.tid & 0xf); f.push_back(0); } return f;
 }
 inline Bytes llc_snap(uint16_t ethertype, const Bytes& payload) { Bytes b; const uint8_t s[6] = { 0xaa, 0xaa, 0x03, 0, 0, 0 }; putb(b, s, 6); put16(b, ethertype); putb(b, payload); return b; }
